@@ -3228,6 +3228,10 @@ def run(tier):
     ck.rule("E0.copy-ops", "move construction / move assignment / clone() / clone(other) / convert(other) of every filter class instantiate (driver tu/c06_copyops.cpp); a copy-like member that cannot be instantiated cannot hand the constraint over", 73)
     ck.rule("C06.state-transfer", "sibling agreement of the copy-like operations: every data member that the filter_* methods of a class read (transitively through its own accessors) is defined, in each of move-ctor / move-assign / clone() / clone(other) / convert(other), from the SAME member of the source (directly, through the class's constructor parameter that initialises it, or recomputed from transferred members). Broken => the copy imposes a different constraint than the original as soon as that member is not at its default (e.g. ignore_nans=true, sol_mean != 0)", 143)
     ck.rule("C06.container-reset", "assign-like operations (move-assign, clone(other), convert(other)) of a filter whose state is its container base (FilterSequence): after the operation the container is a function of the source only - every append / element write is dominated (CFG) by clear() or a whole-container assignment of the target, and appends happen in a forward traversal of the source. Broken => a re-used, non-empty target keeps old sub-filters and its old order; with overlapping sub-filters another prescribed value wins", 6)
+    ck.rule("C06.permute-convention", "renumbering: the permute(perm) members of the filters forward to permute(perm) of the sparse vector that holds their entries; all of these "
+            "sibling implementations (SparseVector / SparseVectorBlocked, every block size) move a stored entry to the position read from the SAME one of the two position arrays "
+            "of the permutation - perm.get_perm_pos() or perm.inverse().get_perm_pos() (followed through named temporaries). Broken => for a permutation that is not an involution the "
+            "scalar unit filter and the blocked unit filter (and the vectors both are applied to, which are renumbered with one convention) end up constraining different DOFs", 3)
     ck.rule("C06.store-growth", "the storage path behind add() (the set-element operator of the sparse vector a filter keeps its entries in): when the arrays are "
             "re-allocated, the number of items carried over from an old array equals the position at which the same function appends the next entry to that array "
             "(both are 'valid items in the array': used_elements() for the index array, used_elements()*BlockSize for the value array of a blocked vector - one unit per array). "
@@ -3351,6 +3355,7 @@ def analyse_store_growth(ck):
     ck.tu(facts)
     for e in (facts.errors_in_repo() + facts.errors_outside_repo())[:3]:
         ck.incomplete(rule, "driver tu/c06_storage.cpp: %s:%d %s" % (rel(e["file"]), e["line"], e["msg"]))
+    analyse_permute_convention(ck, facts)
     by_decl = {f.d["decl"]: f for f in facts.functions if "decl" in f.d and f.tk != "pattern" and f.body is not None}
     targets = {}
     for f in facts.functions:
@@ -3430,6 +3435,94 @@ def analyse_store_growth(ck):
                   ("line %s carries %s items of %s over to the new array, but the function appends to %s at position %s: the two disagree on how many items the array holds "
                    "(reached from add() of %s)" % (bad[0][1].get("l"), _sg_canon(bad[0][0][0], bad[0][0][1]), m, m, " / ".join(sorted(cur)), ", ".join(sorted(set(users))[:3])))
                   if bad else "carried over: %s = append position" % " / ".join(sorted(cur)), g.file, mine[0][1].get("l"))
+
+
+def analyse_permute_convention(ck, facts):
+    rule = "C06.permute-convention"
+    by_decl = {f.d["decl"]: f for f in facts.functions if "decl" in f.d and f.tk != "pattern" and f.body is not None}
+    targets = {}
+    for f in facts.functions:
+        if f.tk == "pattern" or f.body is None or f.name != "permute" or not re.search(r"Filter", f.cls or ""):
+            continue
+        for n in f.nodes():
+            if n.get("k") == "MCall" and n.get("n") == "permute" and n.get("cdecl") in by_decl and not re.search(r"Filter", n.get("ccls") or ""):
+                targets.setdefault(n["cdecl"], (by_decl[n["cdecl"]], []))[1].append(re.sub(r"^FEAT::LAFEM::", "", f.cls or "?"))
+    if not targets:
+        ck.incomplete(rule, "no permute() of a filter class forwards to a permute() of its entry container (driver tu/c06_storage.cpp)")
+        return
+
+    def source(g, e, depth=0):
+        """'forward' / 'inverse' / None for an expression that denotes a permutation object, relative to g's parameter"""
+        e = _sg_strip(e)
+        if e is None or depth > 6:
+            return None
+        if e.get("k") == "Ref" and e.get("dk") == "param":
+            return "forward"
+        if e.get("k") == "Ref" and e.get("dk") == "local":
+            li = _sg_local_init(g, e.get("n"))
+            return source(g, li, depth + 1) if li is not None else None
+        if e.get("k") in ("Construct", "TempObj") and len(e.get("a", [])) == 1:
+            return source(g, e["a"][0], depth + 1)
+        if e.get("k") == "MCall" and e.get("n") == "inverse" and not e.get("a"):
+            s_ = source(g, e.get("obj"), depth + 1)
+            return {"forward": "inverse", "inverse": "forward"}.get(s_)
+        return None
+
+    def array_kind(g, e, depth=0):
+        e = _sg_strip(e)
+        if e is None or depth > 6:
+            return None
+        if e.get("k") == "Ref" and e.get("dk") == "local":
+            li = _sg_local_init(g, e.get("n"))
+            return array_kind(g, li, depth + 1) if li is not None else None
+        if e.get("k") in ("Construct", "TempObj") and len(e.get("a", [])) == 1:
+            return array_kind(g, e["a"][0], depth + 1)
+        if e.get("k") == "MCall" and e.get("n") in ("get_perm_pos", "get_swap_pos"):
+            s_ = source(g, e.get("obj"))
+            return (s_ + ("" if e["n"] == "get_perm_pos" else "/swap")) if s_ else None
+        return None
+    found = {}
+    for decl, (g, users) in targets.items():
+        kinds, unknown = set(), []
+        for n in g.nodes():
+            base = idx = None
+            if n.get("k") == "Index":
+                base = n.get("b")
+            elif n.get("k") == "OpCall" and n.get("op") == "[]" and len(n.get("a", [])) == 2:
+                base = n["a"][0]
+            if base is None:
+                continue
+            t = g.ntype(_sg_strip(base)) or ""
+            if "*" not in t:
+                continue
+            k_ = array_kind(g, base)
+            if k_:
+                kinds.add(k_)
+        # any use of the permutation that is not one of the two position arrays (apply(), a hand-made inverse ...) is outside the rule
+        for n in g.nodes():
+            if n.get("k") == "MCall" and n.get("ccls") and "Permutation" in n["ccls"] and n.get("n") not in ("get_perm_pos", "get_swap_pos", "inverse", "size", "empty"):
+                unknown.append(n.get("n"))
+        found[decl] = (g, users, kinds, unknown)
+    conv = {}
+    for decl, (g, users, kinds, unknown) in found.items():
+        if len(kinds) == 1 and not unknown:
+            conv.setdefault(next(iter(kinds)), []).append(g)
+    for decl, (g, users, kinds, unknown) in sorted(found.items(), key=lambda kv: kv[1][0].cls):
+        key = "%s::permute" % re.sub(r"^FEAT::LAFEM::", "", g.cls or "?")
+        if len(kinds) != 1 or unknown:
+            ck.incomplete(rule, "%s: the position array the entries are moved with is not a single get_perm_pos() of perm or perm.inverse() (%s%s)" % (
+                key, sorted(kinds) or "none recognised", ("; also calls " + ", ".join(sorted(set(unknown)))) if unknown else ""))
+            ck.rule_counts[rule] = ck.rule_counts.get(rule, 0) + 1
+            continue
+        mine = next(iter(kinds))
+        others = {k_: [re.sub(r"^FEAT::LAFEM::", "", h.cls or "?") for h in gs] for k_, gs in conv.items() if k_ != mine}
+        # the dissenter is the convention held by fewer siblings; with a tie every party is named
+        tpl = lambda names: len({re.sub(r"<.*$", "", x) for x in names})        # instantiations of one template are one voice
+        bad = bool(others) and tpl([h.cls or "?" for h in conv[mine]]) <= max(tpl(v) for v in others.values())
+        ck.ob(rule, key, not bad,
+              ("entries are moved with the %s position array of the permutation, but %s: the filters forwarding here (%s) are renumbered differently from their siblings" % (
+                  mine, "; ".join("%s use(s) the %s array" % (", ".join(sorted(set(v))[:3]), k_) for k_, v in sorted(others.items())), ", ".join(sorted(set(users))[:3])))
+              if bad else "%s position array, like its %d sibling(s)" % (mine, len(conv[mine]) - 1), g.file, g.line)
 
 
 def analyse(ck, facts, prefix, driver):
